@@ -207,8 +207,10 @@ func cmdCheck(args []string) int {
 	// discover harnesses
 	var specs []harnessSpec
 	prefixes := []string{"Harness_" + prop + "_"}
+	var alsoExact []string
 	for _, a := range cfg.Also {
 		prefixes = append(prefixes, "Harness_"+a+"_")
+		alsoExact = append(alsoExact, "Harness_"+a)
 	}
 	for _, pd := range cfg.Packages {
 		sp := prog.Package(repoModule + "/" + pd)
@@ -221,11 +223,20 @@ func cmdCheck(args []string) int {
 			if _, isFn := mem.(*ssa.Function); !isFn {
 				continue
 			}
+			matched := false
 			for _, pre := range prefixes {
 				if strings.HasPrefix(name, pre) {
-					names = append(names, name)
+					matched = true
 					break
 				}
+			}
+			for _, ex := range alsoExact {
+				if name == ex { // an "also" entry may name one harness exactly
+					matched = true
+				}
+			}
+			if matched {
+				names = append(names, name)
 			}
 		}
 		sort.Strings(names)
